@@ -1,7 +1,7 @@
 (* StaticFacts.v - the per-module callback is "static or never cached" (hypothesis cb_ok of
    HistFacts) for the DWARF module kinds, and the instantiation of C06 / C20 for both
    architectures. *)
-From FH Require Import Consts Word X86 A64 DwarfRow Cfi Unwinder X86Dwarf A64Dwarf DwarfCb Pe X86Unw A64Unw
+From FH Require Import Macho MachoCb Consts Word X86 A64 DwarfRow Cfi Unwinder X86Dwarf A64Dwarf DwarfCb Pe X86Unw A64Unw
   WordFacts HistFacts.
 From Coq Require Import Lia ZifyBool ZifyN.
 Open Scope N_scope.
@@ -74,6 +74,44 @@ Proof.
   - destruct (index_build sec base_svma) as [idx|]; cbn; [|reflexivity].
     destruct (index_lookup true idx rel) as [f|]; cbn; [|reflexivity].
     destruct (add64p S_dwarf_svma_add base_svma rel) as [svma|e|s|]; cbn; try reflexivity. apply with_fde_ok.
+Qed.
+(* Mach-O: the compact-unwind step looks at the unwind data only; deferred entries are DWARF rows *)
+Variable arch_unwind : mfunction -> bool -> N -> option (list N) -> cui_result rule.
+Variables stub_rule start_rule : rule.
+Variable helper_rule : N -> rule.
+
+Definition macho_static (d : macho_data) (base_svma : N) (first : bool) (rel : N) : sclass rule :=
+  match macho_cui rule arch_unwind stub_rule start_rule helper_rule d rel first with
+  | CuiRule r => SRule _ r
+  | CuiErr => SErr _
+  | CuiNeedDwarf off =>
+    match m_eh d with
+    | None => SErr _
+    | Some l =>
+      match eh_find l off with
+      | None => SErr _
+      | Some f =>
+        match add64p S_dwarf_svma_add base_svma rel with
+        | Ok svma => fde_static f svma
+        | _ => SRule _ uncovered
+        end
+      end
+    end
+  end.
+
+Lemma cb_macho_ok d base_svma first rel rg m :
+  match macho_static d base_svma first rel with
+  | SRule _ r => fst (cb_macho rule regs row_step uncovered arch_unwind stub_rule start_rule helper_rule d base_svma first rel rg m) = CbRule r
+  | SErr _ => fst (cb_macho rule regs row_step uncovered arch_unwind stub_rule start_rule helper_rule d base_svma first rel rg m) = CbErr rg
+  | SDyn _ => match fst (cb_macho rule regs row_step uncovered arch_unwind stub_rule start_rule helper_rule d base_svma first rel rg m) with
+              | CbRule _ | CbErr _ => False | _ => True end
+  end.
+Proof.
+  unfold macho_static, cb_macho.
+  destruct (macho_cui rule arch_unwind stub_rule start_rule helper_rule d rel first); try reflexivity.
+  destruct (m_eh d) as [l|]; [|reflexivity].
+  destruct (eh_find l fde_offset) as [f|]; [|reflexivity].
+  destruct (add64p S_dwarf_svma_add base_svma rel) as [svma|e|s|]; cbn; try reflexivity. apply with_fde_ok.
 Qed.
 End DwarfStatic.
 
@@ -282,6 +320,8 @@ Definition cb_static_x86 (md : xmodule) (first : bool) (rel : N) : sclass rule :
   | MNone => SErr _
   | MDwarf p sec => dwarf_static rule translate_x86 uncovered_rule_x86 p sec (base_svma md) rel
   | MPe pe => pe_static pe rel first
+  | MMacho d => macho_static rule translate_x86 uncovered_rule_x86 x86_macho_unwind JustReturn JustReturn x86_stub_helper_rule
+                             d (base_svma md) first rel
   end.
 
 Lemma cb_x86_ok md first rel rg m :
@@ -291,8 +331,9 @@ Lemma cb_x86_ok md first rel rg m :
   | SDyn _ => match fst (cb_x86 md first rel rg m) with CbRule _ | CbErr _ => False | _ => True end
   end.
 Proof.
-  unfold cb_static_x86, cb_x86. destruct (mdat md); [reflexivity | | apply pe_step_ok].
-  apply cb_dwarf_ok. apply row_step_x86_ok.
+  unfold cb_static_x86, cb_x86. destruct (mdat md); [reflexivity | | apply pe_step_ok |].
+  - apply cb_dwarf_ok. apply row_step_x86_ok.
+  - apply cb_macho_ok. apply row_step_x86_ok.
 Qed.
 
 (* ---------- aarch64 ---------- *)
@@ -318,6 +359,8 @@ Definition cb_static_a64 (md : amodule) (first : bool) (rel : N) : sclass arule 
   | AMNone => SErr _
   | AMDwarf p sec => dwarf_static arule translate_a64 uncovered_rule_a64 p sec (base_svma md) rel
   | AMPe => SErr _
+  | AMMacho d => macho_static arule translate_a64 uncovered_rule_a64 a64_macho_unwind ANoOp ANoOp a64_stub_helper_rule
+                              d (base_svma md) first rel
   end.
 
 Lemma cb_a64_ok md first rel rg m :
@@ -327,6 +370,7 @@ Lemma cb_a64_ok md first rel rg m :
   | SDyn _ => match fst (cb_a64 md first rel rg m) with CbRule _ | CbErr _ => False | _ => True end
   end.
 Proof.
-  unfold cb_static_a64, cb_a64. destruct (mdat md); [reflexivity| |reflexivity].
-  apply cb_dwarf_ok. apply row_step_a64_ok.
+  unfold cb_static_a64, cb_a64. destruct (mdat md); [reflexivity| |reflexivity|].
+  - apply cb_dwarf_ok. apply row_step_a64_ok.
+  - apply cb_macho_ok. apply row_step_a64_ok.
 Qed.
